@@ -638,5 +638,16 @@ def _dot_partition(prog, rep, fi):
     rep.pin('gradient_dot_product', "R02.5", fi.name, both and only_l and only_r and none, "membership partition in-left x in-right has all four cases; single-side cases return the partner element at the found position" if both and only_l and only_r and none else "the (in-left, in-right) partition is incomplete or returns the wrong partner element", loc=fi.loc, detail="membership-partition")
     both_sum = "_simplify_add(\n                        right_elems[left_index], left_elems[right_index]" in s or "_simplify_add(right_elems[left_index], left_elems[right_index])" in s
     rep.pin('gradient_dot_product', "R02.5", fi.name, both_sum, "a variable occurring in both operands gets both contributions" if both_sum else "a variable occurring in both operands does not get the sum of both partner elements", loc=fi.loc, detail="both-case-sum")
+    from ..astutil import disjuncts
+    for n in walk_local(fi.node):
+        if isinstance(n, ast.If) and any(isinstance(r, ast.Return) and "Constant(2.0)" in src(r.value) for r in n.body if isinstance(r, ast.Return)):
+            for dj in disjuncts(n.test):
+                t = src(dj)
+                ident = isinstance(dj, ast.Compare) and isinstance(dj.ops[0], ast.Is)
+                ordered = isinstance(dj, ast.Compare) and isinstance(dj.ops[0], ast.Eq) and src(dj.left).endswith("._variables") and src(dj.comparators[0]).endswith("._variables")
+                rep.ob("R02.5", fi.name, ident or ordered,
+                       f"x.x shortcut under `{t[:50]}` (identity / ordered variable list)" if ident or ordered else
+                       f"the 2*x_j shortcut is taken under `{t[:70]}`, which does not establish that both operands are the same vector in the same order",
+                       loc=f"{fi.module.rel}:{n.lineno}", detail=f"same-vector-guard:{'identity' if ident else 'ordered-list' if ordered else t[:30]}")
     same = "if left is right" in s
     rep.pin('gradient_dot_product', "R02.5", fi.name, same, "x.x shortcut (2*x_j) is taken for the identical vector object" if same else "the x.x shortcut is not guarded by object identity", loc=fi.loc, detail="same-vector-shortcut")
